@@ -4,6 +4,8 @@ pub mod bigint;
 pub mod c01;
 pub mod c02;
 pub mod c03;
+pub mod c04;
+pub mod c04gen;
 pub mod c05;
 pub mod c07;
 pub mod c09;
@@ -20,7 +22,7 @@ pub mod c20;
 pub mod numref;
 
 pub fn all() -> Vec<&'static dyn Property> {
-    vec![&c01::C01, &c02::C02, &c03::C03, &c05::C05, &c07::C07, &c09::C09, &c11::C11, &c12::C12, &c13::C13, &c14::C14, &c15::C15, &c16::C16, &c18::C18, &c20::C20]
+    vec![&c01::C01, &c02::C02, &c03::C03, &c04::C04, &c05::C05, &c07::C07, &c09::C09, &c11::C11, &c12::C12, &c13::C13, &c14::C14, &c15::C15, &c16::C16, &c18::C18, &c20::C20]
 }
 
 pub fn lookup(id: &str) -> Option<&'static dyn Property> {
